@@ -442,6 +442,22 @@ def oracle_c26(ctx, budget_s):
                      "when a run or count crosses a repetition boundary)")
     g = D.Gen(rng, max_trials=4)
     t_end = ctx.elapsed() + budget_s
+    # corpus: composed blocks first (constraints given to the block vs to the combinator, weighted factors, Nest)
+    for desc in O.corpus_designs(ctx.big()):
+        if ctx.elapsed() > t_end - budget_s * 0.5:
+            break
+        if desc["block"]["k"] == "cross":
+            continue
+        case = O.Case(ctx, desc)
+        if not case.build():
+            continue
+        case.regs = OD.regions(desc, case.geo)
+        ctx.count("C26.corpus")
+        OD.check_sound(ctx, case, "IterateSATGen", 6, "C26")
+        OD.check_exhaust(ctx, case, "IterateSATGen", "C26")
+        ctx.case(("C26", "corpus", json.dumps(desc, sort_keys=True)), True)
+        if ctx.failures:
+            return
     while ctx.elapsed() < t_end:
         leaf = O.gen_leaf(g, small=True, want_derived=rng.choice([0, 0, 1]), kinds=["Pin", "ExactlyK"] + O.RUN_KINDS, allow_weights=False)
         b = leaf["block"]
